@@ -518,7 +518,7 @@ func replayRound(r *fw.Run, raw json.RawMessage, prop string) {
 func init() {
 	fw.Register(&fw.Engine{
 		ID: "C01", Level: "exploration",
-		Rule: "a case = one connection script: 1..6 calls (targets: 3 registered scripted interfaces, unknown interfaces, methods without interface part, GetInfo, GetInterfaceDescription good/unknown/missing/ill-typed, unknown org.varlink.service methods; flags: every subset of more/oneway/upgrade plus explicit false/null spellings), each scripted call carrying its own handler script (0..5 steps of continues-reply / final reply / error reply with valid, dot-less and reserved names / the four built-in error helpers / yields, then a final reply, an error reply, nothing, or a handler failure), sent under one of 5 segmentations (one write, one byte per write, random cuts with pauses, one write per frame, cuts around 4096/8192). Rounds run 1..N such connections concurrently against one real Service on a socket (N<=8 quick, <=32 thorough). Oracle: the sequential model of DESIGN A.2 per connection - reply frames equal one for one and in order (number-exact JSON), EOF where predicted, handler log (target, flags, result of every reply attempt, end) equal, at most one handler per connection at any time, no handler event for an unknown peer, active-connection counter back to 0. non-trivial = >= 2 calls, or a flag, or > 1 handler step; distinct by hash of the call list and segmentation.",
+		Rule: "a case = one connection script: 1..6 calls (targets: 3 registered scripted interfaces, unknown interfaces, methods without interface part, GetInfo, GetInterfaceDescription good/unknown/missing/ill-typed, unknown org.varlink.service methods; flags: every subset of more/oneway/upgrade plus explicit false/null spellings), each scripted call carrying its own handler script (0..5 steps of continues-reply / final reply / error reply with valid, dot-less and reserved names / the four built-in error helpers / yields, then a final reply, an error reply, nothing, or a handler failure), sent under one of 5 segmentations (one write, one byte per write, random cuts with pauses, one write per frame, cuts around 4096/8192). Rounds run 1..N such connections concurrently against one real Service on a socket (N<=8 quick, <=32 thorough). Oracle: the sequential model of DESIGN A.2 per connection - reply frames equal one for one and in order (number-exact JSON), EOF where predicted, handler log (target, flags, result of every reply attempt, end) equal, at most one handler per connection at any time, no handler event for an unknown peer, active-connection counter back to 0. non-trivial = >= 2 calls, or a flag, or > 1 handler step; distinct by hash of the call list and segmentation. Also: now and then a connection with up to 700 calls; frames without a method member; rounds in which 150 (thorough 400) connections are all established before the first byte is sent, two thirds of them idle and held open; rounds in which one client stops reading in the middle of a 3 MiB reply (its handler sits in a blocked write) while the others, started once that handler has been entered, must be served as usual. A connection left without bytes and without EOF for 40 s while the barrier probe made after the round is answered is a violation (stall).",
 		Assumptions: []string{"connections that the service ends while pipelined calls are unread are run on unix sockets only (TCP may discard already sent replies on reset)", "handler events are attributed by the peer address the service reports (clients bind unique local addresses)"},
 		Run:         runC01, Replay: replayC01, CrashIsViolation: true, MinEvals: 100,
 		QuickTimeout: 10 * time.Minute, ThoroughTimeout: 40 * time.Minute,
